@@ -260,6 +260,65 @@ pub fn run(rep: &mut Rep) {
             }
         }
     }
+    // a session that has expired takes its unreleased identifiers with it: in the new session the same numbers belong to
+    // new messages (DUP=0), each of which is delivered exactly once again
+    rep.note("expired session: 1-3 inbound QoS 2 exchanges left unreleased, connection lost, session expired at reconnection (interval 0 / absent / elapsed), new subscription, the same identifiers reused for new messages, re-delivered once with DUP=1, released");
+    let mut eidx = total + 45_000_000;
+    for unreleased in 1..=3u16 {
+        for (vi, (sei, ago)) in [(None, 1u64), (Some(0u32), 1), (Some(100), 1000)].iter().enumerate() {
+            let id = format!("expired:{unreleased}:{vi}");
+            eidx += 1;
+            if !rep.take(eidx, &id) {
+                continue;
+            }
+            let mut w = World::boot(WorldCfg { seed: rep.seed, sei: *sei, ..Default::default() });
+            let s0 = w.start(0, Kind::Sub);
+            w.settle_check();
+            w.deliver_ack(s0, 1, 0, 0);
+            w.settle_check();
+            w.take_stream(s0);
+            let sid0 = w.sub_id_of(s0).unwrap_or(1);
+            for p in 1..=unreleased {
+                w.in_publish(2, p, false, &[sid0], false);
+                w.settle_check();
+            }
+            w.eof();
+            w.settle_check();
+            w.resume_full(ResumeOpts { secs_ago: *ago, sei: *sei, expect_expired: true, ..Default::default() });
+            w.settle_check();
+            if !w.blind {
+                let s1 = w.start(0, Kind::Sub);
+                w.settle_check();
+                if w.m[s1].pkt_id.is_some() {
+                    w.deliver_ack(s1, 1, 0, 0);
+                    w.settle_check();
+                    w.take_stream(s1);
+                    let sid1 = w.sub_id_of(s1).unwrap_or(2);
+                    for p in 1..=unreleased + 1 {
+                        w.in_publish(2, p, false, &[sid1], false);
+                        w.settle_check();
+                        w.in_publish(2, p, true, &[sid1], false);
+                        w.settle_check();
+                    }
+                    for p in 1..=unreleased + 1 {
+                        w.in_pubrel(p);
+                        w.settle_check();
+                    }
+                }
+            }
+            finish(&mut w);
+            rep.add("evaluations", 1);
+            rep.add("expired_session_cases", 1);
+            rep.distinct(&("expired", unreleased, vi));
+            for v in w.viols.iter_mut() {
+                if v.sig.starts_with("stream/") && !v.props.contains(&"C09") {
+                    v.props = &["C09"];
+                }
+            }
+            harvest(rep, &mut w, &id);
+            add_counters(rep, &w);
+        }
+    }
     // interleaved with QoS 0/1 traffic and client operations
     let a = Alpha {
         kinds: vec![Kind::Sub, Kind::Pub1, Kind::Pub2, Kind::Ping],
